@@ -242,6 +242,7 @@ pub fn run_process<T: Send + 'static>(
     ctx.chunk = spec.chunk;
     ctx.crash_at = spec.crash_at;
     ctx.capture_reads = spec.capture_reads;
+    let abandoned = ctx.abandoned.clone();
     let gate_for_exit = gate.clone();
     if let Some((g, pid)) = gate {
         ctx.gate = Some(g);
@@ -284,7 +285,9 @@ pub fn run_process<T: Send + 'static>(
                 reads: ctx.reads,
             }
         }
-        Err(_) => ProcResult {
+        Err(_) => {
+          abandoned.store(true, std::sync::atomic::Ordering::Relaxed);
+          ProcResult {
             exit: Exit::Hung,
             value: None,
             log: Vec::new(),
@@ -294,7 +297,8 @@ pub fn run_process<T: Send + 'static>(
             syscalls: 0,
             getrandom_calls: 0,
             reads: Vec::new(),
-        },
+          }
+        }
     };
     if let Some((g, pid)) = gate_for_exit {
         // tell a scheduler, if any, that this process is gone
